@@ -423,6 +423,8 @@ where
     R: Add<U1>,
     Sum<R, U1>: Mul<U2>,
     ExpandedKeyTableSize<R>: ArraySize,
+    // Key size
+    B: Unsigned,
 {
     fn write_alg_name(f: &mut fmt::Formatter<'_>) -> fmt::Result {
         write!(
@@ -430,7 +432,7 @@ where
             "RC5 - {}/{}/{}",
             core::any::type_name::<W>(),
             <R as Unsigned>::to_u8(),
-            <R as Unsigned>::to_u8(),
+            <B as Unsigned>::to_u8(),
         )
     }
 }
@@ -449,6 +451,8 @@ where
     R: Add<U1>,
     Sum<R, U1>: Mul<U2>,
     ExpandedKeyTableSize<R>: ArraySize,
+    // Key size
+    B: Unsigned,
 {
     fn fmt(&self, f: &mut fmt::Formatter<'_>) -> fmt::Result {
         write!(
@@ -456,7 +460,7 @@ where
             "RC5 - {}/{}/{} {{ ... }}",
             core::any::type_name::<W>(),
             <R as Unsigned>::to_u8(),
-            <R as Unsigned>::to_u8(),
+            <B as Unsigned>::to_u8(),
         )
     }
 }
